@@ -389,10 +389,13 @@ fn get_and_validate_timeline_indices(
 
     if num_unique_timeline_indices != expected_unique_timeline_count as usize {
         let missing_string = {
-            (0..expected_unique_timeline_count).filter(|index| !ast_spans_by_timeline.contains_key(index))
-                .map(|index| index.to_string())
-                .collect::<Vec<_>>()
-                .join(", ")
+            // (only name the first few; an index like 2000000000 would otherwise make this list huge)
+            let mut missing = (0..expected_unique_timeline_count).filter(|index| !ast_spans_by_timeline.contains_key(index));
+            let mut names = missing.by_ref().take(16).map(|index| index.to_string()).collect::<Vec<_>>();
+            if missing.next().is_some() {
+                names.push("...".to_string());
+            }
+            names.join(", ")
         };
         let max_index_span = ast_spans_by_timeline.values().next_back().unwrap()[0];
         errors.set(emitter.emit(error!(
